@@ -18,6 +18,32 @@
  *                   (offset+len = N+1, N+2; arithmetic-overflow pairs
  *                   offset = SIZE_MAX-k, len = k+1+j) by store_part/fetch_part
  *   scenario D    = store -> alter one octet of the region -> validate
+ *   scenario E    = images (and, for the two additive sums, initial values
+ *                   handed to persistent_sum16/32) chosen such that the checksum
+ *                   of the stored image is a special value (0, all-ones, 1, top
+ *                   bit, all-ones in one half, ...): reset -> store -> validate
+ *                   -> fetch -> store_part rewriting one octet (chunked
+ *                   checksum) -> every single-bit alteration of one octet.  The
+ *                   default trivial sum reaches 0xffff / wraps to 0 only with
+ *                   257 / 258 octets of data: those two sizes are run for it.
+ *   scenario L    = data sizes / buffer sizes / part offsets straddling 2^8 and
+ *                   2^16 (255..257, 65535..65537 octets of data), compact
+ *                   sequence as in H.
+ *   scenario H    = configuration histories: the same PersistentStorage object
+ *                   (memory pre-filled with 00 or a5) goes through persistent_init
+ *                   followed by every sequence of up to L calls out of
+ *                   {persistent_init, place(A), place(B), sum16(CRC), sum32};
+ *                   the configuration in force is what the documented meaning of
+ *                   these calls adds up to (last placement and last checksum
+ *                   since the last init); a compact A/B/C/D sequence then runs
+ *                   against the region of that configuration.
+ *
+ * Zero-length parts inside the data (offset 0..N, length 0) are part of
+ * scenarios A (fetch_part) and B (store_part): a successful zero-length store
+ * is a successful partial store, so the instance must validate afterwards; a
+ * library that refuses them is accepted (class part-zero-length either way).
+ * A zero-length medium access touches no octet and is inside the region
+ * wherever its address is.
  *
  * The medium is exactly the instance's region [place, place+cs+N) inside an
  * exact-size heap block.  The callbacks log every (address,length); an access
@@ -84,8 +110,16 @@ sum32_step(const unsigned char *d, size_t n, uint32_t s)
     return s;
 }
 
-enum { CK_DEFAULT, CK_CRC16, CK_SUM32, CK_KINDS };
-static const char *const CKNAME[CK_KINDS] = { "default-sum16", "crc16-arc", "sum32" };
+/* CK_SUM16I: the 16-bit octet sum handed to persistent_sum16 as a user algorithm
+ * together with an initial value (scenario E only; the other kinds form the
+ * configuration grid) */
+enum { CK_DEFAULT, CK_CRC16, CK_SUM32, CK_SUM16I, CK_KINDS };
+#define CK_GRID 3
+static const char *const CKNAME[CK_KINDS] = { "default-sum16", "crc16-arc", "sum32", "user-sum16" };
+
+/* initial value handed to persistent_sum16/32 for the additive user checksums of
+ * the running case (set by begin_case from the configuration) */
+static uint32_t cur_init = SUM32_INIT;
 
 static size_t
 cks_size(int ck)
@@ -99,7 +133,8 @@ ref_checksum(int ck, const unsigned char *d, size_t n)
     switch (ck) {
     case CK_DEFAULT: return ref_sum16(d, n);
     case CK_CRC16: return crc16_arc_step(d, n, 0);
-    default: return sum32_step(d, n, SUM32_INIT);
+    case CK_SUM16I: return (ref_sum16(d, n) + (cur_init & 0xffffu)) % 65536u;
+    default: return sum32_step(d, n, cur_init);
     }
 }
 
@@ -166,6 +201,8 @@ static bool
 med_inside(uint32_t addr, size_t n)
 {
     const uint64_t a = addr;
+    if (n == 0)
+        return true; /* touches no octet */
     return a >= M.lo && n <= M.size && (a - M.lo) <= (uint64_t)(M.size - n);
 }
 
@@ -221,18 +258,81 @@ cb_sum32(const unsigned char *d, size_t n, uint32_t init)
     return sum32_step(d, n, init);
 }
 
+static uint16_t
+cb_sum16(const unsigned char *d, size_t n, uint16_t init)
+{
+    return (uint16_t)((ref_sum16(d, n) + init) % 65536u);
+}
+
 /* ---- configuration --------------------------------------------------------------- */
 
 #define PLACE_TOP 0xffffffffu /* marker: region ends exactly at 2^32 */
-static const uint32_t PLACES[] = { 0u, 1u, 7u, 100u, PLACE_TOP };
-#define NPLACES 5
+/* 0xfffd / 0x7ffffffd: the region straddles 2^16 / 2^31 */
+static const uint32_t PLACES[] = { 0u, 1u, 7u, 100u, 0xfffdu, 0x7ffffffdu, PLACE_TOP };
+#define NPLACES 7
+
+/* A configuration history: the calls made on the object after the first
+ * persistent_init.  I = persistent_init again, P = place(A), p = place(B),
+ * c = sum16(CRC-16/ARC), s = sum32.  What is in force afterwards (reference,
+ * from the documented meaning of the calls: init gives placement 0 and the
+ * default sum, place/sumNN replace placement/checksum): */
+enum { H_INIT, H_PLACE_A, H_PLACE_B, H_CRC16, H_SUM32, H_NOPS };
+#define HLEN_MAX 5
+struct hist {
+    int len;
+    unsigned char op[HLEN_MAX];
+    int place_kind; /* 0: none since the last init (address 0), 1: A, 2: B */
+    int ck;
+    char name[2 * HLEN_MAX + 4];
+};
+static struct hist *HISTS;
+static int NHISTS;
+
+static void
+hists_make(int maxlen)
+{
+    int total = 0, pw = 1;
+    for (int l = 0; l <= maxlen; ++l, pw *= H_NOPS)
+        total += pw;
+    HISTS = calloc((size_t)total, sizeof *HISTS);
+    if (!HISTS)
+        mc_broken("out of memory");
+    pw = 1;
+    for (int l = 0; l <= maxlen; ++l, pw *= H_NOPS)
+        for (int code = 0; code < pw; ++code) {
+            struct hist *h = &HISTS[NHISTS++];
+            h->len = l;
+            h->place_kind = 0;
+            h->ck = CK_DEFAULT;
+            size_t k = 0;
+            h->name[k++] = 'I';
+            int x = code;
+            for (int i = 0; i < l; ++i, x /= H_NOPS) {
+                const int op = x % H_NOPS;
+                h->op[i] = (unsigned char)op;
+                h->name[k++] = '.';
+                h->name[k++] = "IPpcs"[op];
+                switch (op) {
+                case H_INIT: h->place_kind = 0; h->ck = CK_DEFAULT; break;
+                case H_PLACE_A: h->place_kind = 1; break;
+                case H_PLACE_B: h->place_kind = 2; break;
+                case H_CRC16: h->ck = CK_CRC16; break;
+                default: h->ck = CK_SUM32; break;
+                }
+            }
+            h->name[k] = 0;
+        }
+}
 
 struct cfg {
     size_t N;
     int place_i;
     int ck;
-    int order; /* 0: place then sumNN; 1: sumNN then place */
-    int buf;   /* -1: no auxiliary buffer; otherwise its size */
+    int order;     /* 0: place then sumNN; 1: sumNN then place (grid configurations) */
+    int buf;       /* -1: no auxiliary buffer; otherwise its size */
+    uint32_t init; /* initial value for CK_SUM32 / CK_SUM16I */
+    const struct hist *h; /* NULL: grid configuration (init, place, sumNN in `order`) */
+    int prefill;   /* history configurations: octet the object's memory holds before the first init */
 };
 
 struct inst {
@@ -241,11 +341,27 @@ struct inst {
 };
 
 static uint32_t
-cfg_place(const struct cfg *c)
+place_a(const struct cfg *c)
 {
     if (PLACES[c->place_i] == PLACE_TOP)
         return (uint32_t)(0x100000000ull - (cks_size(c->ck) + c->N));
     return PLACES[c->place_i];
+}
+
+static uint32_t
+place_b(const struct cfg *c)
+{
+    const uint32_t a = place_a(c);
+    return a >= 16u ? a - 11u : a + 11u;
+}
+
+/* the placement in force */
+static uint32_t
+cfg_place(const struct cfg *c)
+{
+    if (c->h)
+        return c->h->place_kind == 0 ? 0u : c->h->place_kind == 1 ? place_a(c) : place_b(c);
+    return place_a(c);
 }
 
 static void
@@ -254,20 +370,42 @@ inst_sum(struct inst *in, const struct cfg *c)
     if (c->ck == CK_CRC16)
         persistent_sum16(&in->s, cb_crc16, 0u);
     else if (c->ck == CK_SUM32)
-        persistent_sum32(&in->s, cb_sum32, SUM32_INIT);
+        persistent_sum32(&in->s, cb_sum32, c->init);
+    else if (c->ck == CK_SUM16I)
+        persistent_sum16(&in->s, cb_sum16, (uint16_t)c->init);
 }
 
 static void
 inst_make(struct inst *in, const struct cfg *c)
 {
     memset(in, 0, sizeof *in);
-    persistent_init(&in->s, c->N, med_read, med_write);
-    if (c->order == 0) {
-        persistent_place(&in->s, cfg_place(c));
-        inst_sum(in, c);
+    if (c->h) {
+        /* every init but the last one announces another data size */
+        int inits_left = 0;
+        for (int i = 0; i < c->h->len; ++i)
+            inits_left += (c->h->op[i] == H_INIT);
+        memset(&in->s, c->prefill, sizeof in->s);
+        persistent_init(&in->s, inits_left ? c->N + 3u : c->N, med_read, med_write);
+        for (int i = 0; i < c->h->len; ++i)
+            switch (c->h->op[i]) {
+            case H_INIT:
+                --inits_left;
+                persistent_init(&in->s, inits_left ? c->N + 3u : c->N, med_read, med_write);
+                break;
+            case H_PLACE_A: persistent_place(&in->s, place_a(c)); break;
+            case H_PLACE_B: persistent_place(&in->s, place_b(c)); break;
+            case H_CRC16: persistent_sum16(&in->s, cb_crc16, 0u); break;
+            default: persistent_sum32(&in->s, cb_sum32, c->init); break;
+            }
     } else {
-        inst_sum(in, c);
-        persistent_place(&in->s, cfg_place(c));
+        persistent_init(&in->s, c->N, med_read, med_write);
+        if (c->order == 0) {
+            persistent_place(&in->s, cfg_place(c));
+            inst_sum(in, c);
+        } else {
+            inst_sum(in, c);
+            persistent_place(&in->s, cfg_place(c));
+        }
     }
     if (c->buf >= 0) {
         in->aux = mc_exact((size_t)c->buf);
@@ -536,6 +674,7 @@ begin_case(const struct cfg *c, struct inst *in)
 {
     failed_here = hung_here = refused_here = false;
     interp_here = INTERP_ALL;
+    cur_init = c->init;
     medium_make(c);
     inst_make(in, c);
 }
@@ -551,8 +690,20 @@ end_case(struct inst *in, bool nontrivial, const char *outcome)
 
 #define CFGFMT "N=%zu place=%lu ck=%s order=%s buf=%d"
 #define CFGARG(c)                                                              \
-    (c)->N, (unsigned long)cfg_place(c), CKNAME[(c)->ck],                      \
-        (c)->order ? "sum-then-place" : "place-then-sum", (c)->buf
+    (c)->N, (unsigned long)cfg_place(c), CKNAME[(c)->ck], cfg_order(c), (c)->buf
+
+/* how the configuration was arrived at: the two grid orders, or the history
+ * (with the prefill octet and the two addresses place(A)/place(B) used) */
+static const char *
+cfg_order(const struct cfg *c)
+{
+    static char b[96];
+    if (!c->h)
+        return c->order ? "sum-then-place" : "place-then-sum";
+    snprintf(b, sizeof b, "history(prefill=%02x,A=%lu,B=%lu):%s", (unsigned)c->prefill,
+             (unsigned long)place_a(c), (unsigned long)place_b(c), c->h->name);
+    return b;
+}
 
 static void
 scenario_roundtrip(const struct cfg *c)
@@ -569,6 +720,15 @@ scenario_roundtrip(const struct cfg *c)
         const char *outcome = "roundtrip-ok";
         if (do_reset(&in, fill) && do_store(&in, c, image, NULL)) {
             bool ok = true;
+            /* zero-length parts inside the data: nothing is demanded of the result
+             * (the statement neither promises nor forbids them); region, call
+             * budget and memory safety are observed */
+            for (size_t off = 0; ok && off <= c->N; ++off) {
+                unsigned char *dst = mc_exact(0);
+                PersistentAccess rc;
+                ok = run_op(&in, OP_FETCH_PART, dst, off, 0, 0, &rc);
+                free(dst);
+            }
             for (size_t off = 0; ok && off < c->N; ++off)
                 for (size_t len = 1; ok && off + len <= c->N; ++len) {
                     unsigned char *dst = mc_exact(len);
@@ -594,14 +754,19 @@ scenario_roundtrip(const struct cfg *c)
 static void
 scenario_part(const struct cfg *c)
 {
-    static const int SRC[3] = { 0, 1, 3 };
+    /* source images; -1: the octets the medium already holds at that place (only
+     * over the reset medium, where the instance does not validate yet: a store
+     * that changes no data octet still has to leave a validating instance) */
+    static const int SRC[4] = { 0, 1, 3, -1 };
     unsigned char expect[NMAX], src_image[NMAX];
     for (int base = 0; base < 2; ++base)
-        for (int si = 0; si < 3; ++si)
-            for (size_t off = 0; off < c->N; ++off)
-                for (size_t len = 1; off + len <= c->N; ++len) {
-                    if (!mc_case(CFGFMT " B:%s,store_part(image%d,off=%zu,len=%zu),validate,fetch",
-                                 CFGARG(c), base ? "reset(ee),store(image2)" : "reset(ee)", SRC[si],
+        for (int si = 0; si < (base ? 3 : 4); ++si)
+            for (size_t off = 0; off <= c->N; ++off)
+                for (size_t len = 0; off + len <= c->N; ++len) {
+                    static const char *const SRCNAME[4] = { "image0", "image1", "image3",
+                                                            "what-the-medium-holds" };
+                    if (!mc_case(CFGFMT " B:%s,store_part(%s,off=%zu,len=%zu),validate,fetch",
+                                 CFGARG(c), base ? "reset(ee),store(image2)" : "reset(ee)", SRCNAME[si],
                                  off, len))
                         continue;
                     struct inst in;
@@ -614,7 +779,10 @@ scenario_part(const struct cfg *c)
                         ok = do_store(&in, c, expect, NULL);
                     }
                     if (ok) {
-                        make_image(src_image, c->N, SRC[si]);
+                        if (SRC[si] < 0)
+                            memcpy(src_image, expect, c->N);
+                        else
+                            make_image(src_image, c->N, SRC[si]);
                         /* the caller's buffer holds exactly the part */
                         unsigned char *src = mc_exact_copy(src_image + off, len);
                         unsigned char *before = mc_exact_copy(M.img, M.size);
@@ -629,6 +797,14 @@ scenario_part(const struct cfg *c)
                         free(before);
                         if (ok && check_stored(&in, c, expect, NULL))
                             outcome = part_outcome(c);
+                    }
+                    if (len == 0 && !failed_here && !hung_here) {
+                        /* accepted (and then held to the oracle above) or refused:
+                         * both admitted, one class */
+                        const bool refused = refused_here;
+                        refused_here = false;
+                        end_case(&in, !refused, "part-zero-length");
+                        continue;
                     }
                     end_case(&in, true, outcome);
                 }
@@ -755,6 +931,285 @@ scenario_alter(const struct cfg *c)
             }
 }
 
+/* ---- scenario E: special checksum values ------------------------------------------------ */
+
+#define NTARGETS 8
+static const uint32_t TARGET16[NTARGETS] = { 0x0000u, 0xffffu, 0x0001u, 0x8000u,
+                                             0x00ffu, 0xff00u, 0xfffeu, 0x7fffu };
+static const uint32_t TARGET32[NTARGETS] = { 0x00000000u, 0xffffffffu, 0x00000001u, 0x80000000u,
+                                             0x0000ffffu, 0xffff0000u, 0xfffffffeu, 0x7fffffffu };
+#define EMAX 320
+
+/* CRC-16/ARC: the register after two more octets b0,b1 is T16(reg ^ (b0 | b1<<8))
+ * with T16 = "two zero octets", a bijection; its inverse as a table */
+static uint16_t *crc_inv16;
+
+static void
+crc_solve_tail(unsigned char *d, size_t N, uint16_t target)
+{
+    static const unsigned char zz[2] = { 0, 0 };
+    if (!crc_inv16) {
+        crc_inv16 = malloc(65536 * sizeof *crc_inv16);
+        if (!crc_inv16)
+            mc_broken("out of memory");
+        for (uint32_t x = 0; x < 65536u; ++x)
+            crc_inv16[crc16_arc_step(zz, 2, (uint16_t)x)] = (uint16_t)x;
+    }
+    const uint16_t reg = crc16_arc_step(d, N - 2, 0);
+    const uint16_t w = (uint16_t)(reg ^ crc_inv16[target]);
+    d[N - 2] = (unsigned char)(w & 0xffu);
+    d[N - 1] = (unsigned char)(w >> 8);
+}
+
+/* Builds the image and the initial value of the case; false when the kind
+ * cannot reach the target at this size (CRC with one octet of data). */
+static bool
+special_make(struct cfg *c, unsigned char *image, int im, int ti)
+{
+    make_image(image, c->N, im);
+    c->init = 0;
+    switch (c->ck) {
+    case CK_CRC16:
+        if (c->N < 2)
+            return false;
+        crc_solve_tail(image, c->N, (uint16_t)TARGET16[ti]);
+        break;
+    case CK_SUM16I:
+        c->init = (TARGET16[ti] + 65536u - ref_sum16(image, c->N)) % 65536u;
+        break;
+    default:
+        c->init = TARGET32[ti] - sum32_step(image, c->N, 0u);
+        break;
+    }
+    cur_init = c->init;
+    MC_ANCHOR(ref_checksum(c->ck, image, c->N) == (c->ck == CK_SUM32 ? TARGET32[ti] : TARGET16[ti]),
+              "special image has the special checksum");
+    return true;
+}
+
+/* reset -> store(image) -> store_part rewriting the last octet with itself (the
+ * checksum is then recomputed from the medium in chunks) -> validate, fetch ->
+ * every single-bit alteration of region octet `pos` */
+static void
+special_run(const struct cfg *c, const unsigned char *image, unsigned char fill, size_t pos,
+            const char *outcome)
+{
+    struct inst in;
+    begin_case(c, &in);
+    int orders = 0;
+    bool ok = do_reset(&in, fill) && do_store(&in, c, image, &orders);
+    if (ok) {
+        unsigned char *src = mc_exact_copy(image + c->N - 1, 1);
+        unsigned char *before = mc_exact_copy(M.img, M.size);
+        PersistentAccess rc;
+        ok = run_op(&in, OP_STORE_PART, src, c->N - 1, 1, 0, &rc);
+        free(src);
+        if (ok && rc != PERSISTENT_ACCESS_SUCCESS) {
+            store_refused(&in, c, before, "store_part", rc);
+            ok = false;
+        }
+        free(before);
+        ok = ok && check_stored(&in, c, image, &orders);
+    }
+    const size_t cs = cks_size(c->ck);
+    for (int bit = 0; ok && bit < 8; ++bit) {
+        M.img[pos] ^= (unsigned char)(1u << bit);
+        const bool distinguishes = (region_interps(M.img, cs, c->N, c->ck, NULL) & orders) == 0;
+        PersistentAccess rc;
+        ok = run_op(&in, OP_VALIDATE, NULL, 0, 0, 0, &rc);
+        if (ok && distinguishes && rc != PERSISTENT_ACCESS_INVALID_DATA) {
+            FAIL("C10/alteration-detected",
+                 "validate returned %d although %s distinguishes the region with bit %d of octet %zu flipped",
+                 (int)rc, CKNAME[c->ck], bit, pos);
+            ok = false;
+        }
+        M.img[pos] ^= (unsigned char)(1u << bit);
+    }
+    end_case(&in, true, outcome);
+}
+
+static const char *
+special_outcome(int ti)
+{
+    return ti == 0 ? "special-sum-zero" : ti == 1 ? "special-sum-all-ones" : "special-sum-other";
+}
+
+static void
+scenario_special(const struct cfg *grid)
+{
+    static const int KINDS[3] = { CK_CRC16, CK_SUM16I, CK_SUM32 };
+    unsigned char image[EMAX];
+    for (int ki = 0; ki < 3; ++ki)
+        for (int im = 2; im <= 3; ++im)
+            for (int ti = 0; ti < NTARGETS; ++ti) {
+                struct cfg c = *grid;
+                c.ck = KINDS[ki];
+                c.order = (ti + im) & 1;
+                if (!mc_would_run()) {
+                    mc_skip_case();
+                    continue;
+                }
+                const bool can = special_make(&c, image, im, ti);
+                const uint32_t target = c.ck == CK_SUM32 ? TARGET32[ti] : TARGET16[ti];
+                if (!mc_case(CFGFMT " init=%08lx E:checksum(image)=%0*lx: image%d%s,reset,store,"
+                             "store_part(last octet),validate,fetch,single-bit alterations",
+                             CFGARG(&c), (unsigned long)c.init, (int)(2 * cks_size(c.ck)),
+                             (unsigned long)target, im, c.ck == CK_CRC16 ? " with solved tail" : ""))
+                    continue;
+                if (!can) {
+                    mc_end(false, "special-unreachable");
+                    continue;
+                }
+                special_run(&c, image, FILLS[ti % 3], (size_t)(ti + im) % (cks_size(c.ck) + c.N),
+                            special_outcome(ti));
+            }
+}
+
+/* the default trivial sum: 257 x ff sums to ffff, one more octet 01 wraps it to 0 */
+static void
+scenario_special_default(void)
+{
+    static const int BUFS[] = { -1, 1, 7, 255, 256, 257, 258, 259, 300 };
+    static const int PL[] = { 0, 4, 6 }; /* indices into PLACES: 0, fffd, top */
+    unsigned char image[EMAX];
+    for (int v = 0; v < 3; ++v)
+        for (size_t pi = 0; pi < sizeof PL / sizeof PL[0]; ++pi)
+            for (size_t bi = 0; bi < sizeof BUFS / sizeof BUFS[0]; ++bi) {
+                struct cfg c;
+                memset(&c, 0, sizeof c);
+                c.N = v == 0 ? 257 : 258;
+                c.place_i = PL[pi];
+                c.ck = CK_DEFAULT;
+                c.buf = BUFS[bi];
+                c.init = SUM32_INIT;
+                if (!mc_case(CFGFMT " E:default sum of %s = %s: reset,store,store_part(last octet),"
+                             "validate,fetch,single-bit alterations", CFGARG(&c),
+                             v == 0 ? "257 x ff" : v == 1 ? "257 x ff, 01" : "257 x ff, 00",
+                             v == 1 ? "0000 (wrapped)" : "ffff"))
+                    continue;
+                memset(image, 0xff, 257);
+                image[257] = v == 1 ? 0x01 : 0x00;
+                MC_ANCHOR(ref_sum16(image, c.N) == (v == 1 ? 0x0000u : 0xffffu), "special default-sum image");
+                special_run(&c, image, FILLS[v], (bi * 37u) % (2u + c.N), special_outcome(v == 1 ? 0 : 1));
+            }
+}
+
+/* ---- scenario H: configuration histories ------------------------------------------------- */
+
+/* one compact reset/store/fetch_part/store_part/validate/fetch/refused-part/
+ * alteration sequence; v selects image, fill value and the part */
+static void
+compact_cases(const struct cfg *c, int vfirst, int vstep, const char *outcome_ok)
+{
+    static const int IM[4] = { 2, 1, 3, 0 };
+    unsigned char *image = mc_exact(c->N), *other = mc_exact(c->N), *expect = mc_exact(c->N);
+    for (int v = vfirst; v < 4; v += vstep) {
+        const size_t off = v == 0 ? 0 : v == 1 ? c->N - 1 : v == 2 ? 0 : c->N / 2;
+        const size_t len = v < 2 ? 1 : v == 2 ? c->N : c->N - c->N / 2;
+        if (!mc_case(CFGFMT " %s:reset(%02x),store(image%d),fetch_part(%zu,%zu),store_part(image%d,%zu,%zu),"
+                     "validate,fetch,store_part(%zu,1),alter(last region octet ^= 80),validate",
+                     CFGARG(c), c->h ? "H" : "L", FILLS[v % 3], IM[v], off, len, IM[v] == 3 ? 2 : 3, off, len, c->N))
+            continue;
+        struct inst in;
+        begin_case(c, &in);
+        make_image(image, c->N, IM[v]);
+        make_image(other, c->N, IM[v] == 3 ? 2 : 3);
+        int orders = 0;
+        bool ok = do_reset(&in, FILLS[v % 3]) && do_store(&in, c, image, &orders);
+        PersistentAccess rc;
+        if (ok) {
+            unsigned char *dst = mc_exact(len);
+            memset(dst, 0xee, len);
+            ok = run_op(&in, OP_FETCH_PART, dst, off, len, 0, &rc);
+            if (ok && rc != PERSISTENT_ACCESS_SUCCESS) {
+                FAIL("C10/fetch-part-returns-slice", "fetch_part(%zu,%zu) inside the data size returned %d",
+                     off, len, (int)rc);
+                ok = false;
+            } else if (ok && memcmp(dst, image + off, len) != 0) {
+                FAIL("C10/fetch-part-returns-slice",
+                     "fetch_part(%zu,%zu) did not return that slice of the stored image", off, len);
+                ok = false;
+            }
+            free(dst);
+        }
+        if (ok) {
+            memcpy(expect, image, c->N);
+            memcpy(expect + off, other + off, len);
+            unsigned char *src = mc_exact_copy(other + off, len);
+            unsigned char *before = mc_exact_copy(M.img, M.size);
+            ok = run_op(&in, OP_STORE_PART, src, off, len, 0, &rc);
+            free(src);
+            if (ok && rc != PERSISTENT_ACCESS_SUCCESS) {
+                store_refused(&in, c, before, "store_part", rc);
+                ok = false;
+            }
+            free(before);
+            ok = ok && check_stored(&in, c, expect, &orders);
+        }
+        if (ok) {
+            unsigned char *snap = mc_exact_copy(M.img, M.size);
+            unsigned char *buf = mc_exact(1);
+            buf[0] = 0x77;
+            ok = run_op(&in, OP_STORE_PART, buf, c->N, 1, 0, &rc);
+            if (ok && rc == PERSISTENT_ACCESS_SUCCESS) {
+                FAIL("C10/part-beyond-size-refused",
+                     "store_part with offset+len beyond the data size %zu returned success", c->N);
+                ok = false;
+            } else if (ok && (M.calls != 0 || memcmp(snap, M.img, M.size) != 0)) {
+                FAIL("C10/refused-part-touches-medium", "refused store_part made %ld medium calls", M.calls);
+                ok = false;
+            }
+            free(buf);
+            free(snap);
+        }
+        if (ok) {
+            M.img[M.size - 1] ^= 0x80;
+            const bool distinguishes =
+                (region_interps(M.img, cks_size(c->ck), c->N, c->ck, NULL) & orders) == 0;
+            if (run_op(&in, OP_VALIDATE, NULL, 0, 0, 0, &rc) && distinguishes
+                && rc != PERSISTENT_ACCESS_INVALID_DATA)
+                FAIL("C10/alteration-detected",
+                     "validate returned %d although %s distinguishes the altered region", (int)rc,
+                     CKNAME[c->ck]);
+        }
+        end_case(&in, true, outcome_ok);
+    }
+    free(image);
+    free(other);
+    free(expect);
+}
+
+static void
+scenario_history(const struct cfg *c)
+{
+    compact_cases(c, 0, 1, "history-ok");
+}
+
+/* L: data sizes, auxiliary buffer sizes and part offsets straddling 2^8 and 2^16
+ * (a counter or offset kept in a narrower type than size_t) */
+static void
+scenario_large(void)
+{
+    static const size_t SIZES[] = { 255, 256, 257, 65535, 65536, 65537 };
+    static const int PL[] = { 0, NPLACES - 1 }; /* 0 and ending at 2^32 */
+    struct cfg c;
+    memset(&c, 0, sizeof c);
+    c.init = SUM32_INIT;
+    for (size_t si = 0; si < sizeof SIZES / sizeof SIZES[0]; ++si)
+        for (size_t pi = 0; pi < 2; ++pi)
+            for (c.ck = 0; c.ck < CK_GRID; ++c.ck) {
+                const int bufs[6] = { -1, 7, 255, 256, 65536, (int)SIZES[si] + 1 };
+                for (int bi = 0; bi < 6; ++bi) {
+                    c.N = SIZES[si];
+                    c.place_i = PL[pi];
+                    c.order = (int)((si + (size_t)bi) & 1u);
+                    c.buf = bufs[bi];
+                    /* variants 1 (last octet) and 3 (second half) */
+                    compact_cases(&c, 1, 2, "large-size-ok");
+                }
+            }
+}
+
 /* ---- anchors ----------------------------------------------------------------------------- */
 
 static void
@@ -786,11 +1241,13 @@ main(int argc, char **argv)
     anchors();
     const size_t nmax = mc_thorough() ? 24 : 10;
     struct cfg c;
+    memset(&c, 0, sizeof c);
+    c.init = SUM32_INIT;
     /* thorough: 1..24 plus 32, the size of the unit test's struct cfg */
     for (size_t ni = 1; ni <= nmax + (mc_thorough() ? 1u : 0u); ++ni) {
         c.N = (ni <= nmax) ? ni : 32;
         for (c.place_i = 0; c.place_i < NPLACES; ++c.place_i)
-            for (c.ck = 0; c.ck < CK_KINDS; ++c.ck)
+            for (c.ck = 0; c.ck < CK_GRID; ++c.ck)
                 for (c.order = 0; c.order < (c.ck == CK_DEFAULT ? 1 : 2); ++c.order)
                     for (c.buf = -1; c.buf <= (int)c.N + 1; ++c.buf) {
                         scenario_roundtrip(&c);
@@ -799,11 +1256,56 @@ main(int argc, char **argv)
                         scenario_alter(&c);
                     }
     }
-    char bound[300];
+    /* E: special checksum values */
+    const size_t emax = mc_thorough() ? 24 : 10;
+    for (c.N = 1; c.N <= emax; ++c.N)
+        for (c.place_i = 0; c.place_i < NPLACES; ++c.place_i) {
+            if (!mc_thorough() && c.place_i != 0 && c.place_i != 3 && c.place_i != NPLACES - 1)
+                continue;
+            for (c.buf = -1; c.buf <= (int)c.N + 1; ++c.buf)
+                scenario_special(&c);
+        }
+    scenario_special_default();
+    scenario_large();
+    /* H: configuration histories */
+    const int hlen = mc_thorough() ? 5 : 4;
+    const size_t hmax = mc_thorough() ? 12 : 8;
+    hists_make(hlen);
+    c.init = SUM32_INIT;
+    c.order = 0;
+    for (c.N = 1; c.N <= hmax; ++c.N)
+        for (c.place_i = 0; c.place_i < NPLACES; ++c.place_i) {
+            if (!mc_thorough() && c.place_i != 0 && c.place_i != 3 && c.place_i != NPLACES - 1)
+                continue;
+            for (int hi = 0; hi < NHISTS; ++hi)
+                for (int pf = 0; pf < 2; ++pf) {
+                    const int bufs[4] = { -1, 1, 3, (int)c.N + 1 };
+                    for (int bi = 0; bi < 4; ++bi) {
+                        if (!mc_thorough() && bi == 1)
+                            continue;
+                        c.h = &HISTS[hi];
+                        c.ck = c.h->ck;
+                        c.prefill = pf ? 0xa5 : 0x00;
+                        c.buf = bufs[bi];
+                        scenario_history(&c);
+                    }
+                }
+        }
+    c.h = NULL;
+    char bound[1200];
     snprintf(bound, sizeof bound,
-             "data sizes 1..%zu%s x placements {0,1,7,100,top-of-2^32} x {default sum16, CRC-16/ARC, sum32} "
-             "x both configuration orders x auxiliary buffer {none, 0..N+1} x scenarios A-D complete",
-             nmax, mc_thorough() ? " and 32" : "");
+             "data sizes 1..%zu%s x placements {0,1,7,100,straddling 2^16,straddling 2^31,ending at 2^32} x "
+             "{default sum16, CRC-16/ARC, sum32} x both configuration orders x auxiliary buffer {none, 0..N+1} x "
+             "scenarios A-D complete (parts include length 0 at offsets 0..N); E: sizes 1..%zu x placements %s x "
+             "buffers {none,0..N+1} x {CRC-16/ARC by content, 16-bit and 32-bit sum by initial value} x 2 images x 8 "
+             "special checksum values, default sum with 257/258 octets x 9 buffers x 3 placements; L: sizes {255,256,257,"
+             "65535,65536,65537} x placements {0, ending at 2^32} x 3 checksums x buffers {none,7,255,256,65536,N+1} x 2 "
+             "compact sequences (parts at the last octet and over the second half); H: sizes 1..%zu x "
+             "placements %s x every call sequence of length <= %d over {init,place(A),place(B),sum16,sum32} after "
+             "the first init (%d histories) x object prefill {00,a5} x buffers %s x 4 compact sequences",
+             nmax, mc_thorough() ? " and 32" : "", emax, mc_thorough() ? "(all 7)" : "{0,100,ending at 2^32}",
+             hmax, mc_thorough() ? "(all 7)" : "{0,100,ending at 2^32}", hlen, NHISTS,
+             mc_thorough() ? "{none,1,3,N+1}" : "{none,3,N+1}");
     mc_finish(true, bound);
     return 0;
 }
